@@ -195,7 +195,7 @@ def inconclusive_exit(prop, repo, tier, reason):
     except Exception as e:
         tw = {'built': False, 'twins': [], 'fails': [], 'tail': repr(e), 'cmd': ''}
     known = load_known()
-    fails = [f for f in tw['fails'] if not any(k['property'] == prop and k['obligation'] == 'bounded.' + f['name'] for k in known)]
+    fails = [f for f in tw['fails'] if prop in f['properties'] and not any(k['property'] == prop and k['obligation'] == 'bounded.' + f['name'] for k in known)]
     if fails:
         os.makedirs(os.path.join(VERIF, 'replay', 'out'), exist_ok=True)
         rp = os.path.join(VERIF, 'replay', 'out', '%s-bounded.%s.json' % (prop, fails[0]['name']))
@@ -321,6 +321,7 @@ def main():
     except Exception as e:
         tw = {'built': False, 'twins': [], 'fails': [], 'tail': repr(e), 'cmd': '', 'wall_s': 0}
     bounded_violations = []
+    tw['fails'] = [fl for fl in tw['fails'] if prop in fl['properties']]
     for fl in tw['fails']:
         kf = next((k for k in known if k['property'] == prop and k['obligation'] == 'bounded.' + fl['name']), None)
         if kf:
